@@ -58,6 +58,20 @@ def run(tier, seed, which="C03"):
         bylen = sorted(range(n), key=lambda j: (-len(seqs[j]), [-ord(c) for c in names[j]]))
         orders += [bylen, bylen[::-1], sorted(range(n), key=lambda j: names[j])]
         add("gen%d" % i, names, seqs, sc["type"], orders, threads=rng.choice([1, 4]), pens=(sc["gpo"], sc["gpe"], sc["tgpe"]), nontrivial=len(set(seqs)) > 1)
+    # names that agree on a long prefix and differ only late (FASTA names are whole header lines; the first 255 bytes decide)
+    for i in range(8 if tier == "quick" else 80):
+        kind = rng.choice(["dna", "protein"])
+        alpha = gen.DNA if kind == "dna" else "DEFHIKLMPQRSVWY"
+        n = rng.randint(3, 7)
+        L = rng.randint(15, 40)
+        seqs = gen.family(rng, n, L, alpha, sub=0.3, indel=0.0)
+        seqs = [x[k:] + x[:k] for x, k in zip(seqs, [rng.randint(0, 2) for _ in seqs])]      # equal lengths, but worth gapping
+        plen = rng.choice([100, 127, 128, 129, 200, 250])
+        prefix = "".join(rng.choice("abcdefgh_") for _ in range(plen))
+        names = [prefix + "%c%d" % (rng.choice("xyz"), j) for j in range(n)]
+        rng.shuffle(names)
+        orders = perms_of(rng, n, 5)
+        add("longname%d" % i, names, seqs, 5, orders, threads=rng.choice([1, 3]))
     # around the 100-sequence switch and above
     sizes = [99, 101, 130] if tier == "quick" else [60, 95, 99, 100, 101, 105, 150, 300, 1000]
     for n in sizes:
